@@ -597,10 +597,21 @@ func (c *Client) negotiateVersion(ctx context.Context) error {
 		return err
 	}
 	serverVersions := bi.ResponsePayload.(*payloads.DiscoverVersionsResponsePayload).ProtocolVersion
-	if len(serverVersions) == 0 {
+	// Adopt the highest version that is both configured on the client and advertised by the server,
+	// whatever the order of the server's list and whether or not it only lists versions we offered.
+	var best *kmip.ProtocolVersion
+	for _, v := range c.supportedVersions {
+		if !slices.Contains(serverVersions, v) {
+			continue
+		}
+		if best == nil || ttlv.CompareVersions(v, *best) > 0 {
+			best = &v
+		}
+	}
+	if best == nil {
 		return errors.New("Protocol version negotiation failed. No common version found")
 	}
-	c.version = &serverVersions[0]
+	c.version = best
 	return nil
 }
 
